@@ -51,7 +51,9 @@ func suiteFiles(c *ctx) {
 		"a/b\\c", "x\x00y\x7f", "", "___", "1234", "tab\there", "dots...and;semi:colons", "many     blanks", "cr\rlf\n"}
 	suffixes := [][2]string{{".up.sql", ".down.sql"}, {".sql", ""}, {".sql", ".sql"}, {"_up.sql", "_down.sql"}, {".up.test", ".down.test"},
 		// distinct suffixes where one ends with the other, and an empty up suffix
-		{".sql", ".down.sql"}, {".up.sql", ".sql"}, {"", ".down"}, {"sql", ".sql"}}
+		{".sql", ".down.sql"}, {".up.sql", ".sql"}, {"", ".down"}, {"sql", ".sql"},
+		// suffixes with capital letters are matched as written (seeded change C11-q)
+		{".Up.sql", ".Down.sql"}}
 	simple := []Stmt{tbl("t", col("a", "int(11)"), col("b", "int(11)"))}
 	id := 0
 	mode := []string{"plain", "version", "withversion", "emptyboth", "onlyup", "emptydown"}
@@ -128,6 +130,10 @@ func suiteFiles(c *ctx) {
 		entries := map[string]string{
 			"20200101000000_b" + sf[0]: "B", "20190101000000_a" + sf[0]: "A", "20210101000000_c" + sf[0]: "C",
 			".hidden" + sf[0]: "H", "notes.txt": "N", "20200101000000_b" + sf[1] + ".bak": "K", "zz" + sf[0] + ".orig": "O",
+		}
+		// a foreign file whose name ends with the suffix in another letter case is not a migration file (C11-q)
+		if up := strings.ToUpper(sf[0]); up != sf[0] {
+			entries["00_LEGACY_EXPORT"+up] = "U"
 		}
 		if sf[1] != "" && sf[1] != sf[0] {
 			entries["20200101000000_b"+sf[1]] = "D"
